@@ -250,6 +250,16 @@ example : ((runSim tokioParams false 9 [{ time := 1, prog := [.spawn 1, .spawn 0
 example : ((runSim tokioParams false 9 [{ time := 1, prog := [.spawn 2, .spawn 1] }, { time := 3, consumed := true, prog := [.wake 0] }] [] none
     chainState).log.map fun x => (x.idx, x.time)) = [(2, 3), (1, 3), (1, 1), (2, 1)] := by decide +kernel
 
+-- `timeout(d, notified())`: one notification arrives at the deadline's instant - the longest-waiting task (the
+-- local one, polled first) gets it, the other one elapses; both observe the deadline 501; neither is polled twice
+example : ((runSim tokioParams false 9 [{ time := 1, prog := [.spawn 0, .spawn 1] },
+      { time := 501, prog := [.wake 0] }] [] none timeoutState).log.map fun x => (x.idx, x.time, x.ready))
+    = [(0, 501, 501), (1, 501, 501), (0, 1, 1), (1, 1, 1)] := by decide +kernel
+
+-- the notification comes first: the Sleep is dropped, its timer leaves the queue
+example : (runSim tokioParams false 9 [{ time := 1, prog := [.spawn 0] }, { time := 7, prog := [.wake 0] }] [] none
+    timeoutState).timers = [] := by decide +kernel
+
 example : 1 ≤ tokioParams.L ∧ 1 ≤ tokioParams.E ∧ 1 ≤ tokioParams.C := by decide
 
 -- a run with timers, a runtime → local wake and a relative sleep is a `GoodRun` / has no silent poll
